@@ -15,6 +15,7 @@ def run(ctx):
     hist.drive(ctx, "C07")
     # INDX round trip and construction from arrays also produce well-formed indexes
     import numpy as np
+    import gen_cube as G
     import idx_common as I
     import indx_common as X
     from catii import iindex
@@ -41,9 +42,35 @@ def run(ctx):
             ctx.hit("op:from_array")
             for p in I.wf_problems(ix2):
                 ctx.oracle_fail("from_array result: " + p, {"array": a.tolist(), "op": "from_array"}, cls="C07-from-array")
+        # reindexed with merging mappings under every option combination, exhaustively on small arrays: merged row-id
+        # lists interleave, and `assume_unique=True` (always a true promise on a well-formed index) skips the de-duplication
+        import itertools
+        for vals in itertools.product(range(3), repeat=4):
+            a = np.array(vals, dtype=np.int64)
+            for shape in ((4,), (2, 2)):
+                arr = a.reshape(shape)
+                for common in (0, 2):
+                    for tgt in (1, 5):
+                        for au, cp in ((True, True), (True, False), (False, True)):
+                            ix = G.make_index(arr, common)
+                            other = [v for v in (0, 1, 2) if v != common]
+                            mapping = {other[0]: tgt, other[1]: tgt}
+                            res = ix.reindexed(dict(mapping), copy=cp, assume_unique=au)
+                            ctx.hit("op:reindexed_merge")
+                            ctx.evaluations += 1
+                            want = I.np_reindexed(arr, mapping, common)
+                            probs = I.wf_problems(res)
+                            if not probs and not np.array_equal(I.dense_of(res), want):
+                                probs = ["dense content %s, expected %s" % (I.dense_of(res).tolist(), want.tolist())]
+                            for p in probs:
+                                ctx.oracle_fail("reindexed(%s, copy=%s, assume_unique=%s) of %s (common %d): %s" % (
+                                    mapping, cp, au, arr.tolist(), common, p),
+                                    {"array": arr.tolist(), "common": common, "mapping": [[k, v] for k, v in mapping.items()],
+                                     "copy": cp, "assume_unique": au, "op": "from_array"}, cls="C07-reindexed")
+        ctx.exhaustive.append("reindexed: all length-4 arrays over 3 values as (4,) and (2,2), commons 0/2, the two listed values "
+                              "merged into 1 or 5, (assume_unique, copy) in {TT, TF, FT}")
         # long, sparse, many-valued inputs: the per-row scan strategy of from_array (also reached by collapsed,
         # filtered and append through their final from_array / shift_common)
-        import gen_cube as G
         for _ in range(ctx.n(12)):
             N = ctx.rng.choice([300, 500, 900])
             ncol = ctx.rng.choice([None, 1, 2, 3])
